@@ -20,6 +20,10 @@ def run (t : List String) : String :=
   | ["noexp", "noexp"] => if handshake 2 2 (.signedBy 2 "localhost") (.signedBy 2 "localhost") then "accept" else "refuse"
   -- the trusted client certificate in the hands of a client configured with CA 1
   | ["wrongca", s] => if handshake 0 1 (.signedBy 0 "localhost") (ident s) then "accept" else "refuse"
+  -- CA rotation: the restarted server is configured with CA 1; the client (certificate from CA 0, configured with CA 0)
+  -- and the server's own certificate (from CA 0) are as before. Whatever TLS state the client kept, admission is decided
+  -- by the configuration of the server it talks to now.
+  | ["rotate", _] => if handshake 1 0 (.signedBy 0 "localhost") (.signedBy 0 "localhost") then "accept" else "refuse"
   | [c, s] => if handshake 0 0 (ident c) (ident s) then "accept" else "refuse"
   | _ => "bad-op"
 
